@@ -84,6 +84,10 @@ Proof. exact generated_shapes_response. Qed.
 Theorem c17_modelled_dependencies_pinned : deps_hold repo_lock_present lock_versions harness_lock_versions cargo_deps = true.
 Proof. exact generated_deps. Qed.
 
+(* the cargo features are independent switches with nothing on by default: a feature set of the model means exactly its cfgs *)
+Theorem c17_feature_table_unchanged : features_hold cargo_features = true.
+Proof. exact generated_features. Qed.
+
 Eval vm_compute in "ASSUMPTIONS c17_fits_or_7f". Print Assumptions c17_fits_or_7f.
 Eval vm_compute in "ASSUMPTIONS c17_parameterless". Print Assumptions c17_parameterless.
 Eval vm_compute in "ASSUMPTIONS c17_prior_independent". Print Assumptions c17_prior_independent.
@@ -95,3 +99,4 @@ Eval vm_compute in "ASSUMPTIONS c17_generated_tables". Print Assumptions c17_gen
 Eval vm_compute in "ASSUMPTIONS c17_generated_conforms". Print Assumptions c17_generated_conforms.
 Eval vm_compute in "ASSUMPTIONS c17_modelled_functions_unchanged_response". Print Assumptions c17_modelled_functions_unchanged_response.
 Eval vm_compute in "ASSUMPTIONS c17_modelled_dependencies_pinned". Print Assumptions c17_modelled_dependencies_pinned.
+Eval vm_compute in "ASSUMPTIONS c17_feature_table_unchanged". Print Assumptions c17_feature_table_unchanged.
